@@ -154,7 +154,36 @@ def run(repo: Repo, rep: Report, tier: str) -> None:
             from ..loader import qualname
             q = qualname(c)
             rep.check(m.name == "pynetdicom.dul" and q == "DULServiceProvider._is_transport_event", "one-per-call", f"{m.name.replace('pynetdicom.', '')}.{q}", enclosing(c, (ast.stmt,)), "PDUs must be read from one place (the reactor thread), otherwise two readers interleave on one byte stream", mod=m, node=c)
-    rep.floor("_read_pdu_data call sites", n_callers, 2)
+    rep.floor("_read_pdu_data call sites", n_callers, 1)
+    # the idle (network) timeout measures silence *after* a PDU: the timer is restarted once the PDU has been read,
+    # never before the blocking read - otherwise the time a PDU takes to arrive in several segments is charged to
+    # the quiet period that follows it, and an association whose every gap is below the timeout is aborted
+    for f_ in [x for x in ast.walk(dul.tree) if isinstance(x, ast.FunctionDef)]:
+        reads_ = [c_ for c_ in walk_no_nested(f_) if isinstance(c_, ast.Call) and isinstance(c_.func, ast.Attribute) and c_.func.attr == "_read_pdu_data"]
+        rst_ = [c_ for c_ in walk_no_nested(f_) if isinstance(c_, ast.Call) and norm(c_.func) in ("self._idle_timer.restart", "self._idle_timer.start")]
+        if not reads_ or not rst_:
+            continue
+        cfg_f = CFG(f_, body=body_nodoc(f_), may_raise=lambda n_: False)
+        for r_ in rst_:
+            rn = cfg_f.nodes_containing(r_)
+            if not rn:
+                continue
+            reach = cfg_f.reachable(rn[0], without=set(), labels_excluded=("loop", "continue"))
+            early = [c_ for c_ in reads_ if any(n_.id in reach and n_ is not rn[0] for n_ in cfg_f.nodes_containing(c_))]
+            rep.check(not early, "gap-tolerant", f"dul.{qualname(f_)}", enclosing(r_, (ast.stmt,)), "the idle timer is restarted before the blocking PDU read instead of after it: the seconds a segmented PDU takes to arrive count against the quiet period that follows, so 'PDU spread over d seconds, then q seconds of silence' is aborted as soon as d + q exceeds the network timeout although neither does", mod=dul, node=r_)
+    # what arrived first is handled first: PDUs are queued in arrival order by the provider thread, and in every pass
+    # the association's reactor looks at the DIMSE queue before it looks for a release request - otherwise a
+    # request and the A-RELEASE-RQ that follows it are handled in order when they arrive a moment apart and out of
+    # order (the request is dropped unserved) when they arrive in one segment
+    am_ = repo.mod("association")
+    rr_ = repo.func("association", "Association._run_reactor")
+    cfg_r = CFG(rr_, body=body_nodoc(rr_), may_raise=lambda n_: False)
+    gm_ = [n_ for n_ in cfg_r.nodes if n_.kind in ("stmt", "test") and any(isinstance(c_.func, ast.Attribute) and c_.func.attr in ("get_msg", "peek_msg") for c_ in calls_at(n_))]
+    rl_ = [n_ for n_ in cfg_r.nodes if n_.kind in ("stmt", "test") and any(isinstance(c_.func, ast.Attribute) and c_.func.attr == "is_release_requested" for c_ in calls_at(n_))]
+    if gm_ and rl_:
+        rep.check(all(any(cfg_r.dominates(g_, r_, labels_excluded=("loop", "continue")) for g_ in gm_) for r_ in rl_), "one-per-call", "association.Association._run_reactor", "DIMSE queue checked before the release request in each pass", "the reactor looks for a release request before it looks at the DIMSE message queue: a request that arrived in the same TCP segment as the A-RELEASE-RQ following it is discarded unserved (the release is answered first), while the same two PDUs a moment apart are served in order - the outcome depends on how the byte stream was segmented", mod=am_, node=rl_[0].ast)
+    else:
+        rep.defer("association.Association._run_reactor: get_msg / is_release_requested not found")
     # ... and at most once per pass of the reactor: the loop turns every pass into at most one new event and then
     # processes one; a second read in the same pass queues events faster than they are consumed, and the
     # primitive check (which only peeks at the head of its queue) announces the same primitive again on every
